@@ -8,8 +8,9 @@ INFO = dict(
             'fiber_manager_wait_in_mpsc_queue', 'fiber_manager_wait_in_mpsc_queue_and_unlock', 'fiber_manager_wait_in_mpmc_queue',
             'fiber_manager_wake_from_mpsc_queue', 'fiber_scheduler_next', 'fiber_scheduler_schedule', 'wsd_work_stealing_deque_push_bottom',
             'wsd_work_stealing_deque_pop_bottom', 'fiber_mark_completed', 'fiber_destroy', 'fiber_signal_wait', 'fiber_mutex_lock',
-            'fiber_mutex_unlock_internal', 'fiber_spinlock_lock', 'fiber_spinlock_unlock', 'mpsc_fifo_push', 'mpmc_fifo_push'],
- stubs=['fiber_context_swap(from,to) on ONE kernel thread: "from is now saved, execution continues as to" plus the checks of what must '
+            'fiber_mutex_unlock_internal', 'fiber_spinlock_lock', 'fiber_spinlock_unlock', 'mpsc_fifo_push', 'mpmc_fifo_push', 'fiber_wait_for_event (E1, shared with C08)'],
+ stubs=['e1.ev_wait_handoff: the environment of e1/C08/ev_e1.c (epoll model, fiber_manager_yield stub asserting that the fd spinlock is handed to the maintenance step)',
+        'fiber_context_swap(from,to) on ONE kernel thread: "from is now saved, execution continues as to" plus the checks of what must '
         'not have been published at that moment; fiber_context_init/destroy: ghost alive/saved flags instead of a stack',
         '8-slot run-queue arrays instead of the hard-coded 256-slot ones; 2-slot mpmc node pool'],
  assumptions=['compositional argument (DESIGN.md 4/C01): on any number of kernel threads a suspended fiber can only be resumed through a '
@@ -34,4 +35,11 @@ def plan(tier, ctx):
     for mode, nm in names.items():
         j += fvm.config('C01', 'step_' + nm, 'c01_step.c', 1, 6, 'sc', srcs=src, defines=['MODE=%d' % mode], spec=dict(spec),
                         bounds='one kernel thread, mechanism: ' + nm, timeout=900)
+    # the fd wait of fiber_event_native.c is a 9th user of the deferred hand-off (spinlock_to_unlock): the caller must leave the unlock of the
+    # descriptor's spinlock to the maintenance step that runs AFTER its context was saved (an early unlock lets a poller on another
+    # kernel thread resume the fiber from a stale context while it is still running).  Harness shared with C08 (e1/C08/ev_e1.c).
+    ev_uw = {'fiber_poll_events_internal.0': 3, 'fiber_spinlock_lock.0': 2, 'fiber_event_wake_waiters.0': 4}
+    j += pair('e1.ev_wait_handoff', [VERIF + '/e1/C08/ev_e1.c'], 'h_ev_wait_resume', unwind=5, unwindset=ev_uw, timeout=280,
+              defines=['C08_MAXFD=4', 'C08_EV_FD=2', 'C08_EV_WAITERS=3'],
+              meta={'engine': 'E1 cbmc-src', 'bounds': 'fiber_wait_for_event on descriptor 2 of 4, <=3 waiters, <=2 events, any masks'})
     return j
